@@ -235,27 +235,41 @@ def _cells(prog: Program, res: Result, env0):
         if len(args) != 4 or not all(isinstance(a, Rat) for a in args):
             raise AnalysisError(f"{q}: fill_single_cell arguments of region {k} not understood")
         inner, thick, kk, rc = args
-        # loop variables: column index and in-region counter
+        # loop variables: the variable v that runs over range(lo, hi) (range(n): lo = 0) and, with enumerate, the in-region counter j;
+        # the column written is any expression c0 + v (the variable itself, or an offset plus it)
         it = lp.iter
         tgt = lp.target
-        if isinstance(it, ast.Call) and attr_chain(it.func) == "enumerate":
+        if isinstance(it, ast.Call) and attr_chain(it.func) == "enumerate" and isinstance(tgt, ast.Tuple) and len(tgt.elts) == 2 and all(isinstance(e_, ast.Name) for e_ in tgt.elts):
             rng = it.args[0]
             jname, idxname = tgt.elts[0].id, tgt.elts[1].id
-        else:
+        elif isinstance(tgt, ast.Name):
             rng = it
             jname = idxname = tgt.id
-        if not (isinstance(rng, ast.Call) and attr_chain(rng.func) == "range" and len(rng.args) == 2):
+        else:
+            raise AnalysisError(f"{q}: region loop {k}: loop target not understood")
+        if not (isinstance(rng, ast.Call) and attr_chain(rng.func) == "range" and len(rng.args) in (1, 2)):
             raise AnalysisError(f"{q}: region loop {k} is not over range(a, b)")
         # evaluate range bounds in the state *before* the loop: use env values of the counters (constants)
-        lo = eng.eval(rng.args[0], _state_before(eng, fi, st, lp))
-        hi = eng.eval(rng.args[1], _state_before(eng, fi, st, lp))
+        sb = _state_before(eng, fi, st, lp)
+        lo = eng.eval(rng.args[0], sb) if len(rng.args) == 2 else Rat.const(0)
+        hi = eng.eval(rng.args[-1], sb)
         num = env0.get(nums[k]) if k < len(nums) else None
-        ok_cols = isinstance(lo, Rat) and isinstance(hi, Rat) and lo.equals(cum) and num is not None and (hi - lo).equals(num)
+        c0 = None
+        if isinstance(col, Rat):
+            c0 = col - Rat.atom(idxname)
+            # the offset is evaluated before the loop as well (a running 'first column' counter)
+            if any(a == idxname for a in c0.all_atoms()):
+                c0 = None
+        if c0 is not None:
+            c0 = c0.subs({a: sb.env[a] for a in c0.all_atoms() if isinstance(sb.env.get(a), Rat)})
+        okc = c0 is not None
+        first_col = (c0 + lo) if (okc and isinstance(lo, Rat)) else None
+        last_col = (c0 + hi) if (okc and isinstance(hi, Rat)) else None
+        ok_cols = first_col is not None and last_col is not None and first_col.equals(cum) and num is not None and (last_col - first_col).equals(num)
         res.ob("R10.1", f"{names[k]} region occupies columns [{cum.key()}, {cum.key()} + {num.key() if num is not None else '?'})", ok_cols, prog.loc(fi, lp))
         if not ok_cols:
-            res.violation("R10.1", f"columns|{names[k]}|{vkey(lo)}:{vkey(hi)}", prog.loc(fi, lp), q,
-                          f"the {names[k]} cells are written to columns [{vkey(lo)}, {vkey(hi)}) instead of [{cum.key()}, {cum.key()} + {num.key() if num is not None else '?'}): regions overlap or leave columns empty")
-        okc = isinstance(col, Rat) and col.equals(Rat.atom(idxname))
+            res.violation("R10.1", f"columns|{names[k]}|{vkey(first_col)}:{vkey(last_col)}", prog.loc(fi, lp), q,
+                          f"the {names[k]} cells are written to columns [{vkey(first_col)}, {vkey(last_col)}) instead of [{cum.key()}, {cum.key()} + {num.key() if num is not None else '?'}): regions overlap or leave a gap in the cell table")
         if not okc:
             res.violation("R10.1", f"column-index|{names[k]}", prog.loc(fi, ev.node), q, f"the {names[k]} cells are stored under column {vkey(col)} instead of the loop's column index")
         J = Rat.atom(jname) - (lo if jname == idxname and isinstance(lo, Rat) else Rat.const(0))
